@@ -18,7 +18,7 @@ var phpPrefixes = []string{
 }
 
 var rawPrefixes = []string{
-	"#!\n", "#!a\n<?php ", "a<?php ", "<?php ?>\n", "<?= 1 ?>", "<?php echo 1 ?>\n",
+	"#!\n", "#!\n#", "#!a\n<?php ", "a<?php ", "<?php ?>\n", "<?= 1 ?>", "<?php echo 1 ?>\n",
 }
 
 func runC01(c *Check) error {
